@@ -83,13 +83,7 @@ def gen_cases(tier, seed):
     return cases
 
 
-def _run(mod, *args):
-    p = subprocess.run([sys.executable, "-W", "ignore", "-m",
-                        "neuroglancer_scripts.scripts." + mod, *args],
-                       capture_output=True, text=True, timeout=600,
-                       env=dict(os.environ, TQDM_DISABLE="1"))
-    tail = p.stderr.strip().splitlines()[-1:] if p.returncode else []
-    return p.returncode, tail, p.stdout
+from harness import cli  # noqa: E402
 
 
 def _chunks(sc):
@@ -141,9 +135,10 @@ def run_case(case):
            "nonzero_repeat_status": 0}
     v = []
     log = []
+    report = os.path.join(top, "child-monitors.jsonl")
 
     def run(mod, *args, expect_ok=True):
-        rc, tail, out = _run(mod, *args)
+        rc, tail, out = cli.run(mod, args, report=report)
         obs["commands_run"] += 1
         log.append(f"{mod} {' '.join(a if len(a) < 40 else '...' + a[-25:] for a in args)} "
                    f"-> {rc}")
@@ -352,6 +347,8 @@ def run_case(case):
     except subprocess.TimeoutExpired as exc:
         v.append({"kind": "command-timeout", "detail": f"{ctx}: {exc}"})
     finally:
+        from harness.core import merge_obs
+        merge_obs(obs, cli.read_report(report))
         shutil.rmtree(top, ignore_errors=True)
     sig = f"{case['route']}|{case['shape']}|{case['dtype']}|{case['method']}|" \
           f"{case['seg']}|{case['cseg']}|{case['flat']}|{case['nogzip']}"
@@ -369,4 +366,7 @@ def gates(obs, tier):
         "completeness_audits": obs.get("completeness_audits", 0) >= 30,
         "multi_scale": obs.get("scales_total", 0) >= 2 * obs.get("sequences", 1) * 0.8,
         "several_downscaling_methods": len(obs.get("methods", {})) >= 3,
+        "monitors_active_inside_the_command_processes": obs.get("child_processes", 0) > 50
+        and obs.get("child_contract_evaluations", {}).get("downscale", 0) > 100
+        and obs.get("child_write_chunk_events", 0) > 100,
     }
